@@ -57,7 +57,19 @@ package vgirpc
 //@   property C29
 //@   at call (*sync.Mutex).Lock assert [locksentry] arg0 == embedded(entry, "lock") && entry != nil
 //@   at call (*sessionRegistry).get assert [sameprincipal] arg1 == sid
-//@   ensures [local_resumed_ret6] result1 == nil && result0 != nil && result0.entry == entry
+//@   # the session is looked up again once its lock is held (a call queued behind the one that ended
+//@   # the session must get session_lost): a resumed session is one the second lookup still returned,
+//@   # and the refusal after the second lookup gives the lock back
+//@   pathflag held
+//@   pathflag released
+//@   pathflag revalidated
+//@   at call (*sync.Mutex).Lock mark held
+//@   at call (*sessionRegistry).get#2 assert [underlock] held && !released && arg1 == sid
+//@   at call (*sessionRegistry).get#2 mark revalidated
+//@   at call (*sync.Mutex).Unlock assert [givesback] held && arg0 == embedded(entry, "lock")
+//@   at call (*sync.Mutex).Unlock mark released
+//@   ensures [local_lostafterwait_ret6] result0.entry == nil && released && typeof(result1) == *SessionLostError
+//@   ensures [local_resumed_ret7] result1 == nil && result0 != nil && result0.entry == entry && held && !released && revalidated
 //@   ensures [local_nolock_ret1] result0.entry == nil
 //@   ensures [local_nolock_ret2] result0.entry == nil
 //@   ensures [local_nolock_ret3] result0.entry == nil
